@@ -7,7 +7,7 @@
    trace inclusion of the lock events (Corr/C09Run.v) and by the watchdog harness (harness/cmd/c09).
    PARTIAL by nature: the Go scheduler and memory model, fairness and wall-clock time are outside the model;
    the model proves ownership discipline, exits of waits and deadlock freedom, the watchdog observes liveness. *)
-From GL Require Import Conc.Locks Conc.LocksProofs.
+From GL Require Import Conc.Locks Conc.LocksProofs Conc.LocksDeadlock Conc.LocksInv.
 
 (* 1. locks_balanced.  In every reachable state of the repaired code (any number of clients, any schedule,
       any outcome of the storage operations, Close at any point) what a client holds is a function of where
@@ -60,7 +60,53 @@ Theorem C09_error_exits : forall pc,
 Proof. exact error_exits. Qed.
 Print Assumptions C09_error_exits.
 
-(* 3. The code before the repairs leaks: concrete schedules of the unfixed variants end in a state where a lock
+(* 3. no_deadlock (PARTIAL).  Full statement (not yet proved):
+
+        forall s, reachable fixed s -> pending s ->
+          exists a, is_arrival fixed s a = false /\ exists s', step fixed s a = Some s'.
+
+      Proved: the same with the protocol invariant inv2 (Conc/LocksDeadlock.v: ack tickets, merge protocol,
+      pause protocol, Close, transaction ownership) as a hypothesis.  inv2 holds in the initial state and is
+      preserved by every step of a client (one lemma per label, Conc/LocksInv.v, e.g. the four below); its
+      preservation by the steps of mCompaction / tCompaction / compactionError is not proved yet. *)
+Theorem C09_no_deadlock_partial : forall s, reachable fixed s -> inv2 s -> pending s ->
+  exists a, is_arrival fixed s a = false /\ exists s', step fixed s a = Some s'.
+Proof. intros s R I2 P. exact (progress s (inv1_reachable s R) I2 P). Qed.
+Print Assumptions C09_no_deadlock_partial.
+
+Theorem C09_inv2_init : inv2 init.
+Proof. exact (inv2_of_parts init inv2'_init). Qed.
+Print Assumptions C09_inv2_init.
+
+(*    Four of the per-label preservation lemmas (all of them are in Conc/LocksInv.v): releasing the write lock,
+      handing it to the overflowed merge writer, handing it to the Transaction, setDone. *)
+Theorem C09_inv2_release_write_lock : forall s i pc' l, inv1 s -> inv2' s -> wl s = WHeld (PCli i) ->
+  (l = LRelW \/ (l = LRelWU /\ merged s = [] /\ pend s = None)) ->
+  cedge1_ok (cli s i) (l, pc') = true -> cedge2_ok (cli s i) (l, pc') = true ->
+  inv2' (set_pc (set_wl s WFree) i pc').
+Proof. exact step_rel. Qed.
+Print Assumptions C09_inv2_release_write_lock.
+
+Theorem C09_inv2_hand_over : forall s i n pc', inv1 s -> inv2' s -> wl s = WHeld (PCli i) -> merged s = [] ->
+  pend s = Some n -> cli s n = W2 ->
+  cedge1_ok (cli s i) (LGiveW, pc') = true -> cedge2_ok (cli s i) (LGiveW, pc') = true ->
+  inv2' (set_pc (set_pend (set_pc (set_wl s (WHeld (PCli n))) n (WF true)) None) i pc').
+Proof. exact step_givew. Qed.
+Print Assumptions C09_inv2_hand_over.
+
+Theorem C09_inv2_open_transaction : forall s i pc', inv1 s -> inv2' s -> wl s = WHeld (PCli i) ->
+  cedge1_ok (cli s i) (LWToTr, pc') = true -> cedge2_ok (cli s i) (LWToTr, pc') = true ->
+  inv2' (set_pc (set_trown (set_wl s WTr) (Some i)) i pc').
+Proof. exact step_wtotr. Qed.
+Print Assumptions C09_inv2_open_transaction.
+
+Theorem C09_inv2_set_done : forall s i pc', inv1 s -> inv2' s -> wl s = WTr -> tr_current s i = true ->
+  cedge2_ok (cli s i) (LRelWTr, pc') = true ->
+  inv2' (set_pc (set_trown (set_wl s WFree) None) i pc').
+Proof. exact step_reltr. Qed.
+Print Assumptions C09_inv2_set_done.
+
+(* 4. The code before the repairs leaks: concrete schedules of the unfixed variants end in a state where a lock
       is held by nobody who will release it (and the repaired code, on the same schedule, does not). *)
 Example C09_commit_leaks_refuted :
   summary (run unfixed_D4a init trace_D4a) = Some (WTr, Some (PCli 0), Some 0, IdleTr, Idle) /\
@@ -79,6 +125,16 @@ Example C09_open_transaction_leaks_refuted :
   summary (run fixed init trace_D4c) = Some (WFree, None, None, Idle, CL3).
 Proof. exact open_transaction_leaks_refuted. Qed.
 Print Assumptions C09_open_transaction_leaks_refuted.
+
+Example C09_commit_retry_leaks_refuted :
+  (match run unfixed_D7 init trace_D7 with
+   | Some s => (cl s, mc s, poisoned s, summary (step unfixed_D7 s (AM 0)))
+   | None => (None, M0, false, None) end) = (Some PM, MD1 true, true, None) /\
+  (match run fixed init trace_D7 with
+   | Some s => match step fixed s (AM 0) with Some s' => Some (mc s') | None => None end
+   | None => None end) = Some (MDs true EOk).
+Proof. exact commit_retry_leaks_refuted. Qed.
+Print Assumptions C09_commit_retry_leaks_refuted.
 
 Theorem C09_poisoned_manifest_sticks : forall s a s',
   poisoned s = true -> step unfixed_D7 s a = Some s' -> poisoned s' = true.
